@@ -94,10 +94,11 @@ def gen_trace20(rng, tier='quick'):
     p = d - r - q
     sig, canon, _ = ref_tables(p, q, r)
     pga = (r == 1 and d in (3, 4))
-    nmv = rng.randint(2, 6)
+    big = tier == 'thorough' and rng.random() < 0.3
+    nmv = rng.randint(2, 6) if not big else rng.randint(4, 9)
     mvs = [gen_mv(rng, d, canon, pga_point_grade=(d - 1) if pga else None) for _ in range(nmv)]
     scalar_ids = [i for i, m in enumerate(mvs) if not m.get('shape')]
-    n_top = rng.randint(1, 7)
+    n_top = rng.randint(1, 7) if not big else rng.randint(4, 12)
     scene = [gen_node(rng, nmv, scalar_ids, 0) for _ in range(n_top)]
     # make sure some plain multivectors sit at the top level (they are the draggable points)
     for _ in range(rng.randint(0, 3)):
@@ -142,7 +143,7 @@ def gen_trace20(rng, tier='quick'):
         world['allow_misaligned'] = True       # (kept as a label: worlds with an expanded top-level subject)
     if places and rng.random() < 0.8:
         t = 0.05
-        for _ in range(rng.randint(1, 7)):
+        for _ in range(rng.randint(1, 7) if not big else rng.randint(5, 15)):
             t += rng.choice([0.001, 0.01, 0.05, 0.2])
             place = rng.choice(places)
             mv = mvs[etop[place]['id']]
